@@ -52,6 +52,8 @@ func verifC04Flow(flow int) {
 		nopts = append(nopts, nodeenrollment.WithStorageWrapper(vfC04Wrapper("node-storage", 6)))
 	}
 	withState := vf.Bool("application-state")
+	// the server's back end may refuse to overwrite a node record (store-once semantics, storage/testing)
+	st.Once = vf.Bool("store-once-back-end")
 	// the roots may have been minted under another certificate lifetime than the one in force when the node is
 	// authorized: a leaf never outlives its own issuing root
 	rootLife := vf.Dur("root-certificate-lifetime", int64(2*time.Hour), int64(30*24*time.Hour))
@@ -114,6 +116,13 @@ func verifC04Flow(flow int) {
 	resp, err = registration.FetchNodeCredentials(ctx, st, req, fopts...)
 	vfOK("fetch", err)
 	vf.Assert("response-carries-credentials", len(resp.EncryptedNodeCredentials) > 0)
+	if flow >= 2 && vf.Bool("node-fetches-a-second-time-with-the-same-request") {
+		// in the wrapper flows a repeated fetch goes through authorization again; on a store-once back end that hits
+		// the duplicate-record branch. The node uses the later response; the server's record must still be there.
+		resp, err = registration.FetchNodeCredentials(ctx, st, req, fopts...)
+		vfOK("second-fetch", err)
+		vf.Assert("second-response-carries-credentials", len(resp.EncryptedNodeCredentials) > 0)
+	}
 	// signed by the server's current root
 	curPub, perr := x509.ParsePKIXPublicKey(roots.Current.PublicKeyPkix)
 	vfOK("parse-current-root-key", perr)
